@@ -6,4 +6,6 @@ CONSTANTS
   MaxFaults = 3
   AllowClose = FALSE
   AllowSplit = TRUE
+  StartCached = TRUE
+  MarkBeforePut = TRUE
 INVARIANTS NoPanic OneEstablisher EstablisherOnlyWhileUnavailable StableEnd
